@@ -5,5 +5,5 @@ CONSTANTS
   InitBal = "5"
   MaxLen = 10
   Scenarios <- MC_AdvReal
-  Defects = {"hook_no_checks", "unescrow_receiver_only", "wrapper_false_is_success"}
+  Defects = {"hook_no_checks", "unescrow_receiver_only"}
 CHECK_DEADLOCK FALSE
